@@ -445,7 +445,7 @@ func scenario(h *vh.H, ci int, r vh.R) {
 		// hostile interludes before the valid block b
 		for k := 0; k < r.IntN(3); k++ {
 			kind := []string{"slot not advancing", "wrong parent state root", "wrong extrinsic hash", "unsorted tickets", "flipped seal byte", "wrong author", "valid sibling", "re-import of an earlier block",
-				"flipped entropy-source byte", "unsolicited preimage", "assurance with a bad signature", "guarantee with bad signatures"}[r.IntN(12)]
+				"flipped entropy-source byte", "unsolicited preimage", "assurance with a bad signature", "guarantee with bad signatures", "ticket already in the accumulator"}[r.IntN(13)]
 			bad := p.blk
 			bad.Extrinsic.Tickets = append(types.TicketsExtrinsic(nil), p.blk.Extrinsic.Tickets...)
 			expectReject := true
@@ -480,6 +480,24 @@ func scenario(h *vh.H, ci int, r vh.R) {
 					continue
 				}
 				bad.Extrinsic.Tickets[0], bad.Extrinsic.Tickets[1] = bad.Extrinsic.Tickets[1], bad.Extrinsic.Tickets[0]
+				xh, _ := utilities.CreateExtrinsicHash(bad.Extrinsic)
+				bad.Header.ExtrinsicHash = xh
+				resign(&bad.Header, int(bad.Header.AuthorIndex), p.tip.tau)
+			case "ticket already in the accumulator":
+				// passes the order, attempt and proof checks and fails only at the late duplicate-against-accumulator check (GP 6.33),
+				// i.e. after the transition has started to build the new accumulator from the prior one
+				if p.tip.tau/E != parent.tau/E || p.tip.tau%E >= types.SlotSubmissionEnd || len(parent.ga) == 0 {
+					continue
+				}
+				tb := parent.ga[r.IntN(len(parent.ga))]
+				ow, ok := w.owner[tb.ID]
+				if !ok {
+					continue
+				}
+				var env types.TicketEnvelope
+				env.Attempt = types.TicketAttempt(ow[1])
+				copy(env.Signature[:], vrf.RingSign(w.keys[ow[0]].sk, ticketCtx(p.tip.eta[2], uint64(ow[1])), nil))
+				bad.Extrinsic.Tickets = types.TicketsExtrinsic{env}
 				xh, _ := utilities.CreateExtrinsicHash(bad.Extrinsic)
 				bad.Header.ExtrinsicHash = xh
 				resign(&bad.Header, int(bad.Header.AuthorIndex), p.tip.tau)
@@ -567,6 +585,9 @@ func scenario(h *vh.H, ci int, r vh.R) {
 					return
 				}
 				h.Inc("rejections")
+				if kind == "ticket already in the accumulator" {
+					h.Inc("resubmitted ticket rejected with: " + ierr.Error())
+				}
 				// (a) the state of everything imported so far is unchanged
 				for _, hh := range imported[max(0, len(imported)-3):] {
 					now, err := getState(hh)
